@@ -1,6 +1,7 @@
 import DeltaModel.Proto
 import DeltaModel.Caller
 import DeltaModel.CallerScan
+import DeltaModel.CallGraph
 open Proto Caller
 
 /-
@@ -17,6 +18,11 @@ Model driver for C20 (`drv_caller`).
   caller.scan <k> (<n> <x arg>*n)*k  <0|1> [<n> <x arg>*n]  <m> (<n> <x arg>*n)*m
       -> ok guess <called|None> | PANIC <x message>   (`determine_calling_process` over ancestors, pid-1 process, neighbours)
   caller.scanshape -> ok total=<0|1> cmd=<..> rest=<..> points=<n> pointsok=<0|1>
+  caller.graph -> ok nodes=<n> sep=<0|1> startup=<phase,..> pre=<0|1 per statement before the publication: can it query>
+                     post=<0|1 per statement after it> prequery=<-|names of query primitives in the pre-publication closure>
+                     caches=<-|names of the lazy_statics whose initialiser can query>
+  caller.reach <x node name> -> ok <0|1> <number of nodes in the closure>   (can a call of that node end in a query primitive)
+  caller.answers <x accesses: c = through the cache, d = direct> <v..,v..|-> -> ok made=<n> <v..,..> | ok made=<n> short
   <called> = OtherGrep | <Variant> long=<x..,x..> short=<x..,..> last=<-|x..> file=<-|x..>
 Values: `pending` or `v<n>`.
 -/
@@ -158,4 +164,48 @@ def stepScanOps (line : String) : String :=
       ++ " pointsok=" ++ (if Generated.CallerDescribe.panicPoints.all (fun p => totalKinds.contains p.2.2) then "1" else "0")
   | _ => stepCaller line
 
-def main : IO Unit := serve stepScanOps
+/-! ### The call graph of the start-up phase (`DeltaModel/CallGraph.lean`) -/
+
+open CallGraph in
+def bits (l : List (String × List Nat)) : String :=
+  String.ofList (l.map fun st => if canReach G st.2 prims then '1' else '0')
+
+open CallGraph in
+def namesOr (l : List Nat) : String :=
+  if l.isEmpty then "-" else ",".intercalate (l.map fun i => (Generated.CallerQueries.nodes[i]?).getD "?")
+
+def popCount : Nat → Nat → Nat
+  | 0, _ => 0
+  | n + 1, S => popCount n S + (if S.testBit n then 1 else 0)
+
+open CallGraph in
+def stepGraphOps (line : String) : String :=
+  match fields line with
+  | ["caller.graph"] =>
+    "ok nodes=" ++ toString G.length
+      ++ " sep=" ++ (if separates G preRoots prims preClosure then "1" else "0")
+      ++ " startup=" ++ ",".intercalate graphStartup
+      ++ " pre=" ++ bits Generated.CallerQueries.prePublication
+      ++ " post=" ++ bits Generated.CallerQueries.postPublication
+      ++ " prequery=" ++ namesOr (prims.filter fun p => preClosure.testBit p)
+      ++ " caches=" ++ namesOr (Generated.CallerQueries.lazyStatics.filter fun c => canReach G [c] prims)
+  | ["caller.reach", n] =>
+    match stringOfField n with
+    | some name =>
+      let S := closure G [idOf name]
+      "ok " ++ (if prims.any (fun t => S.testBit t) then "1" else "0") ++ " " ++ toString (popCount G.length S)
+    | none => "ERR"
+  | ["caller.answers", a, rs] =>
+    match stringOfField a with
+    | some acc =>
+      let l := acc.toList.map fun c => if c = 'c' then Access.cached else Access.direct
+      let res := if rs = "-" then [] else (rs.splitOn ",").map fun w =>
+        if w = "pending" then Cell.pending else Cell.val ((w.drop 1).toNat?.getD 0)
+      "ok made=" ++ toString (queriesMade l false) ++ " " ++
+        (match answers l res none with
+         | some out => ",".intercalate (out.map cellStr)
+         | none => "short")
+    | none => "ERR"
+  | _ => stepScanOps line
+
+def main : IO Unit := serve stepGraphOps
